@@ -21,6 +21,11 @@ import (
 )
 
 func (e *Engine) modelOps(s *State, fr *Frame, dst *ssa.Call, key string, f *ssa.Function, args []Value, site ssa.Instruction) (Value, bool) {
+	// opt-in per root ("exact_strings" in the root function's contract): the checks written before these models
+	// existed keep the coarser treatment (arbitrary Sprintf result, opaque Builder) they were validated with
+	if e.rootContract == nil || e.rootContract.Flags["exact_strings"] == "" {
+		return nil, false
+	}
 	switch key {
 	case "strings.Builder.Grow", "strings.Builder.Reset":
 		if key == "strings.Builder.Reset" {
@@ -70,6 +75,10 @@ func (e *Engine) modelOps(s *State, fr *Frame, dst *ssa.Call, key string, f *ssa
 			str := args[1].(Term)
 			e.sbAppend(s, bp, buf, nil, str, true)
 			return &Tuple{Vs: []Value{App("str.len", SInt, str), NilIface}}, true
+		}
+	case "crypto/subtle.ConstantTimeCompare":
+		if v, ok := e.modelCTCompare(s, args); ok {
+			return v, true
 		}
 	case "strings.Trim":
 		if v, ok := e.modelTrim(s, args); ok {
@@ -297,4 +306,54 @@ func (e *Engine) modelSprintf(s *State, f *ssa.Function, args []Value) (Value, b
 		return parts[0], true
 	}
 	return e.u.Define("sprintf", App("str.++", SString, parts...)), true
+}
+
+// ---- []byte(string) provenance --------------------------------------------------------------------------------
+
+type strBytes struct{ arr, str Term }
+
+var stringBytesOf = map[*Engine]map[string]strBytes{}
+
+// noteStringBytes records that the fresh backing array at base holds exactly the bytes of str.
+func (e *Engine) noteStringBytes(base, arr, str Term) {
+	m := stringBytesOf[e]
+	if m == nil {
+		m = map[string]strBytes{}
+		stringBytesOf[e] = m
+	}
+	m[base.S] = strBytes{arr, str}
+}
+
+// stringOfBytes: the string a byte slice was converted from, if the slice is the whole, still unmodified result
+// of a []byte(s) conversion on this path.
+func (e *Engine) stringOfBytes(s *State, sl Term) (Term, bool) {
+	base, off, ln, _ := e.u.SliceParts(sl)
+	sb, ok := stringBytesOf[e][base.S]
+	if !ok || off.S != "0" {
+		return Term{}, false
+	}
+	key, sort := e.memKey(types.Typ[types.Uint8])
+	if Select(s.heapGet(key, sort), base).S != sb.arr.S {
+		return Term{}, false
+	}
+	if ln.S != App("str.len", SInt, sb.str).S {
+		return Term{}, false
+	}
+	return sb.str, true
+}
+
+// modelCTCompare: subtle.ConstantTimeCompare([]byte(a), []byte(b)) is 1 exactly when a == b.
+func (e *Engine) modelCTCompare(s *State, args []Value) (Value, bool) {
+	x, ok1 := args[0].(Term)
+	y, ok2 := args[1].(Term)
+	if !ok1 || !ok2 {
+		return nil, false
+	}
+	sx, ok1 := e.stringOfBytes(s, x)
+	sy, ok2 := e.stringOfBytes(s, y)
+	if !ok1 || !ok2 {
+		return nil, false
+	}
+	e.trustModel("crypto/subtle.ConstantTimeCompare on two []byte(string) conversions: 1 iff the strings are equal")
+	return Ite(Eq(sx, sy), IntLit(1), IntLit(0)), true
 }
